@@ -165,7 +165,6 @@ def run(rep: vk.Report):
                     w = V[0]
                     step = "gradient()"
                     gt = AD.gradient(ee, w)
-                    C._compile_cached.cache_clear()
                     with np.errstate(all="ignore"):
                         o["grad"] = None
                         if not deep:
@@ -230,8 +229,8 @@ def run(rep: vk.Report):
                 old = (AD._RECURSION_THRESHOLD, AN._RECURSION_THRESHOLD)
                 try:
                     AD._RECURSION_THRESHOLD = th; AN._RECURSION_THRESHOLD = th
-                    AD._gradient_cached.cache_clear()
-                    res.append((AD.gradient(ee, V[0]), AN.compute_degree(ee)))
+                    with common.uncached(AD, "_gradient_cached"), common.uncached(AN, "_compute_degree_cached"):
+                        res.append((AD.gradient(ee, V[0]), AN.compute_degree(ee)))
                 finally:
                     AD._RECURSION_THRESHOLD, AN._RECURSION_THRESHOLD = old
             if not common.trees_equal(res[0][0], res[1][0]) or res[0][1] != res[1][1]:
